@@ -19,12 +19,12 @@ FUNCTIONS = ["solvor.job_shop.solve_job_shop / _dispatch / _try_swap / _rebuild_
              "solvor.vrp.VRPState.{copy,compute_arrival_times,update_arrival_times,*_violation}", "solvor.vrp.vrp_objective", "solvor.vrp.solve_vrptw (with solvor.lns.alns underneath)"]
 BOUNDS = {
     "quick": "job shop: shapes 2x2, 3x2, 2x3 (jobs x ops) with 8 machine assignments each (repeated machines inside a job included), rules "
-             "fifo/spt/lpt/mwkr/random, local search off and on (max_iter<=2); durations unbounded Ints >= 0. VRPTW operators: 3 customers (one "
+             "fifo/spt/lpt/mwkr/random, local search off and on (max_iter<=2), machine indices with gaps, early stop through on_progress; durations unbounded Ints >= 0. VRPTW operators: 3 customers (one "
              "needing 2 vehicles) + depot, 2 vehicles, EVERY bookkeeping-valid pre-state (route membership and order), each of the 8 exported "
              "operators once; distances (symmetric, non-negative), demands, capacities, windows, service times symbolic; vrp_objective on the same states and on states of 2 customers / 3 vehicles with a customer that requires three vehicles; solve_vrptw end to end on 3 instances (tuples of every accepted length / Customer objects, int / list fleets, symbolic demands, windows, service times, capacities and penalty weights, concrete coordinates), 1 and 3 ALNS iterations, path-capped",
     "thorough": "job shop 3x3 and max_iter 3; VRPTW with 4 customers (two multi-vehicle) and 3 vehicles (VERIF_SEED-sampled pre-states)",
 }
-OUTSIDE = "more customers/vehicles/jobs than the bound; full solve_vrptw runs (covered only through its operators and objective); float rounding"
+OUTSIDE = "more customers/vehicles/jobs than the bound; solve_vrptw beyond 3 ALNS iterations on the three instances (its search is covered through the one-step operator obligations); float rounding"
 ASSUMPTIONS = [
     "VRP invariant INV: every customer is in `unassigned` XOR on at least one route; no duplicate inside a route; a single-vehicle customer is on at "
     "most one route; a k-vehicle customer on at most k routes; arrival_times[v] == compute_arrival_times(v)",
